@@ -201,7 +201,7 @@ type slot struct {
 }
 
 var absentMenu = [][]string{nil, {"V1"}, {"V2"}, {"V1", "V2"}}
-var evidenceMenu = [][]string{nil, {"V1"}, {"X"}, {"V2"}}
+var evidenceMenu = [][]string{nil, {"V1"}, {"X"}, {"V2"}, {"V1", "V1"}, {"V1", "V2"}, {"U0"}}
 var proposerMenu = []string{"V0", "", "V1"}
 
 type slotSet struct {
@@ -210,12 +210,22 @@ type slotSet struct {
 }
 
 func historySlots(h sim.History, menu []sim.TxSpec, withEnv bool) *slotSet {
+	return historySlotsN(h, menu, withEnv, 1, true)
+}
+
+// historySlotsN: nAppend append slots per block (several inserted transactions in one block);
+// txSlots=false leaves the default transactions untouched (no drop / replace).
+func historySlotsN(h sim.History, menu []sim.TxSpec, withEnv bool, nAppend int, txSlots bool) *slotSet {
 	ss := &slotSet{menu: menu}
 	for b, bl := range h.Blocks {
-		for p := range bl.Txs {
-			ss.slots = append(ss.slots, slot{slotTx, b, p, 2 + len(menu)})
+		if txSlots {
+			for p := range bl.Txs {
+				ss.slots = append(ss.slots, slot{slotTx, b, p, 2 + len(menu)})
+			}
 		}
-		ss.slots = append(ss.slots, slot{slotAppend, b, 0, 1 + len(menu)})
+		for k := 0; k < nAppend; k++ {
+			ss.slots = append(ss.slots, slot{slotAppend, b, k, 1 + len(menu)})
+		}
 		if withEnv {
 			if b >= 1 {
 				ss.slots = append(ss.slots, slot{slotAbsent, b, 0, len(absentMenu)})
